@@ -93,6 +93,10 @@ def mk_payload(x):
         return x[2][0]
     if k == "some":
         return x[1]
+    if k == "call" and isinstance(x[1], str) and core.callee_base(x[1]) in (
+            "core::result::Result::map_err", "core::option::Option::ok_or_else", "core::option::Option::ok_or",
+            "core::result::Result::or_else", "core::option::Option::filter") and x[2]:
+        return mk_payload(x[2][0])
     if k == "residual":
         return ("undef",)
     if k == "mutby" and core.callee_base(x[1]) in ("core::option::Option::replace", "core::option::Option::insert",
